@@ -95,6 +95,7 @@ class TextEngine:
         self.n_ws = 0
         self.n_restart = 0
         self.doc = None  # C20
+        self.deleted_notes = []  # C09: note objects deleted from the paragraph (may be inserted again)
         self.host = None  # C05: the paragraph the element under test sits in (or None)
         self.host_model = None
         self.n_fill = 0
@@ -331,7 +332,8 @@ class TextEngine:
         if rng.chance(self.cfg["p_restart"], "restart?"):
             return {"op": "restart"}
         what = rng.weighted([("set_span", 5), ("set_link", 3), ("set_bookmark", 4), ("set_reference_mark", 3), ("insert_note", 2), ("insert_annotation", 2),
-                             ("remove_spans", 1.5), ("remove_links", 1), ("remove_one", 2), ("delete_mark", 2), ("delete_inline", 1.5), ("append", 1)], "what")
+                             ("remove_spans", 1.5), ("remove_links", 1), ("remove_one", 2), ("delete_mark", 2), ("delete_inline", 1.5), ("append", 1),
+                             ("delete_note", 1.5), ("reinsert_note", 2 if self.deleted_notes else 0), ("move_refmark_end", 2)], "what")
         op = {"op": "markup", "what": what, "n": n}
 
         def regex():
@@ -374,6 +376,16 @@ class TextEngine:
                 op["role"] = rng.choice([None, None, "start", "end"], "role")
         elif what == "insert_note":
             op["regex"] = regex()
+        elif what == "delete_note":
+            op["idx"] = rng.randint(0, 3, "nidx")
+        elif what == "reinsert_note":
+            op["idx"] = rng.randint(0, 3, "nidx")
+            op["where"] = rng.choice(["start", "in_span"], "nwhere")
+        elif what == "move_refmark_end":
+            op["idx"] = rng.randint(0, 3, "ridx")
+            op["mode"] = rng.choice(["after", "before"], "rmode")
+            op["regex"] = regex()
+            op["k"] = rng.choice([0, 0, 1], "rk")
         elif what == "remove_one":
             op["kind"] = rng.choice(["span", "link"], "rkind")
             op["idx"] = rng.randint(0, 3, "ridx")
@@ -622,6 +634,57 @@ class TextEngine:
         tags = (xmlref.X_NOTE,)
         return self._c09_mark(op2, el, root, pre_xml, T, nodes, concat, noted, feats, tags,
                               lambda: el.insert_note(after=op["regex"], note_id=f"n{op['n']}", citation=str(op["n"]), body=f"note body {op['n']}"))
+
+    def _c09_delete_note(self, op, el, root, pre_xml, T, nodes, concat, noted, feats):
+        notes = el.get_notes()
+        if not notes:
+            return []
+        target = notes[op["idx"] % len(notes)]
+        try:
+            target.delete()
+        except Exception as e:
+            return [Violation("C09", "raises", "delete_note", feats, type(e).__name__, str(e))]
+        self.deleted_notes.append(target)
+        return self._text_kept("delete_note", feats, T)
+
+    def _c09_reinsert_note(self, op, el, root, pre_xml, T, nodes, concat, noted, feats):
+        """a note object taken out earlier is put back (insert_note(note_element=...))"""
+        if not self.deleted_notes:
+            return []
+        note = self.deleted_notes.pop(op["idx"] % len(self.deleted_notes))
+        feats = feats + ["reinserted_element", "where:" + op["where"]]
+        try:
+            if op["where"] == "in_span" and el.get_spans():
+                el.insert_note(note_element=note, after=el.get_spans()[0])
+            else:
+                el.insert_note(note_element=note)
+        except Exception as e:
+            if not self._unchanged(root, pre_xml):
+                return [Violation("C09", "raised-after-partial-modification", "reinsert_note", feats, type(e).__name__, f"{type(e).__name__}: {e}")]
+            return []
+        self.n_marks += 1
+        return self._text_kept("reinsert_note", feats, T)
+
+    def _c09_move_refmark_end(self, op, el, root, pre_xml, T, nodes, concat, noted, feats):
+        """set_reference_mark_end on an existing range: its end mark moves, the text stays"""
+        starts = el.get_elements("descendant::text:reference-mark-start") + el.get_elements("descendant::text:reference-mark")
+        if not starts:
+            return []
+        start = starts[op["idx"] % len(starts)]
+        kw = {op["mode"]: op["regex"], "position": op["k"]}
+        op2 = dict(op, mode=op["mode"])
+        want = self._designated_offsets(op2, nodes)
+        feats = feats + ["mode:" + op["mode"]] + (["no_match"] if want is None else [])
+        try:
+            el.set_reference_mark_end(start, **kw)
+        except Exception as e:
+            if not self._unchanged(root, pre_xml):
+                # (the old end mark is deleted before the new place is searched: judged on the text only)
+                vs = self._text_kept("move_refmark_end", feats + ["raised"], T)
+                return vs
+            return []
+        self.n_marks += 1
+        return self._text_kept("move_refmark_end", feats, T)
 
     def _c09_remove_all(self, op, el, root, pre_xml, T, feats, what, call, tag):
         try:
